@@ -579,58 +579,85 @@ def _norm(s: str) -> str:
     return s.replace("_", "").lower()
 
 
-def _has_dup(names: Sequence[str]) -> bool:
-    return len(set(names)) < len(names)
+def _dup_names(names: Sequence[str]) -> List[str]:
+    seen, out = set(), []
+    for n in names:
+        if n in seen and n not in out:
+            out.append(n)
+        seen.add(n)
+    return out
 
 
-def colliding_groups(mm: Dict[str, Any]) -> List[str]:
-    """Entity groups of the meta-model in which two different entities have the same normalised name."""
-    groups = []
-    if _has_dup([_norm(c["name"]) for c in mm.get("consts", [])]):
-        groups.append("constants")
-    if _has_dup([_norm(f) for f in mm.get("funcs", [])]):
-        groups.append("functions")
+def colliding_groups(mm: Dict[str, Any]) -> Dict[str, List[str]]:
+    """Entity groups of the meta-model in which two different entities have the same normalised name,
+    with those normalised names."""
+    groups: Dict[str, List[str]] = {}
+
+    def add(group: str, names: Sequence[str]) -> None:
+        if names:
+            groups.setdefault(group, [])
+            groups[group] += [n for n in names if n not in groups[group]]
+
+    add("constants", _dup_names([_norm(c["name"]) for c in mm.get("consts", [])]))
+    add("functions", _dup_names([_norm(f) for f in mm.get("funcs", [])]))
     structures = [_norm(t["name"]) for t in mm["types"]]
     enums = [t for t in mm["types"] if t["kind"] == "enum"]
+    for e in enums:
+        add("literals", _dup_names([_norm(l) for l in e["literals"]]))
     glob = [_norm(e["name"] + l) for e in enums for l in e["literals"]]
-    if (
-        any(_has_dup([_norm(l) for l in e["literals"]]) for e in enums)
-        or _has_dup(glob)
-        or set(glob) & (set(structures) | {"i" + x for x in structures})
-    ):
-        groups.append("literals")
+    add("literals", _dup_names(glob))
+    add("literals", sorted(set(glob) & (set(structures) | {"i" + x for x in structures})))
     for t in mm["types"]:
         if t["kind"] == "class":
-            members = [_norm(x) for x in c21_mm.all_props(mm, t) + c21_mm.all_methods(mm, t)]
-            accessors = [pre + _norm(x) for x in c21_mm.all_props(mm, t) for pre in ("get", "set")]
-            if _has_dup(members) or set(members) & set(accessors):
-                if "members" not in groups:
-                    groups.append("members")
-    if _has_dup(structures) or set(structures) & {"i" + x for x in structures} or "modeltype" in structures:
-        groups.append("structures")
+            props = [_norm(x) for x in c21_mm.all_props(mm, t)]
+            members = props + [_norm(x) for x in c21_mm.all_methods(mm, t)]
+            add("members", _dup_names(members))
+            add("members", sorted(m for m in members if any(m == pre + q for q in props for pre in ("get", "set"))))
+    add("structures", _dup_names(structures))
+    add("structures", sorted(set(structures) & {"i" + x for x in structures}))
     return groups
 
 
-def attribute(target: str, d: Dict[str, str], groups: Sequence[str]) -> str:
-    """Scope kind (root cause) of one duplicate declaration: the first entity group that can put names into
-    that kind of place and that does contain a normalised-name collision."""
+def attribute(target: str, d: Dict[str, str], groups: Dict[str, List[str]], mm_types: Sequence[Dict[str, Any]] = ()) -> str:
+    """Scope kind (root cause) of one duplicate declaration: among the entity groups that can put names into
+    that kind of place and that do contain a normalised-name collision, the one whose colliding name is the
+    longest one contained in the duplicated name (first candidate if none is contained)."""
     file_class = d["sig"].split(":")[2]
     scope, decl = d["scope"], d["decl"]
     stem = file_class.split("/")[-1].split(".")[0].lower()
+    if target == "xsd":
+        # the XSD scopes are few and model independent: name them directly
+        return f"C21:xsd:{scope}"
+    dup = _norm(d["name"])
+    if "modeltype" in dup and any(_norm(t["name"]) == "modeltype" for t in mm_types):
+        # an our type called like the generated `ModelType` enumeration (`Model_type` is reserved by the front
+        # end, `ModelType` / `Model__type` are not)
+        return f"C21:{target}:reserved-ModelType"
     cands = []
     if stem.startswith("constants"):
         cands.append("constants")
-    if scope == "enum-body" or decl == "literal" or (target == "golang" and scope == "module" and decl == "var"):
+    if scope == "enum-body" or decl == "literal" or (target == "golang" and stem == "types" and scope == "module" and decl == "var"):
+        # (Go enumeration literals are module-level constants of types.go)
         cands.append("literals")
     if stem.startswith("verification") or stem.startswith("pattern"):
         cands.append("functions")
     if scope in ("class-body", "interface-body", "struct-body", "properties", "required", "sequence"):
         cands.append("members")
     cands.append("structures")
+    cands = [c for c in cands if c in groups]
+    if not cands:
+        return f"C21:{target}:unattributed:{file_class}:{scope}:{decl}"
+    best, best_len = cands[0], -1
     for c in cands:
-        if c in groups:
-            return f"C21:{target}:{c}"
-    return f"C21:{target}:unattributed:{file_class}:{scope}:{decl}"
+        n = max((len(x) for x in groups[c] if x in dup), default=-1)
+        if n > best_len:
+            best, best_len = c, n
+    if best in ("constants", "functions"):
+        # nothing at all checks these two kinds: one root cause per target
+        return f"C21:{target}:{best}"
+    # elsewhere the kind of place matters (a duplicated class is another defect than a duplicated helper
+    # function derived from the class name)
+    return f"C21:{target}:{best}:{scope}:{decl}"
 
 
 def judge_output(target: str, out: pathlib.Path, mm: Dict[str, Any]) -> List[Tuple[str, str]]:
@@ -638,7 +665,7 @@ def judge_output(target: str, out: pathlib.Path, mm: Dict[str, Any]) -> List[Tup
     bad: Dict[str, str] = {}
     groups = colliding_groups(mm)
     for d in c21_decl.duplicates(target, out):
-        sig = attribute(target, d, groups)
+        sig = attribute(target, d, groups, mm["types"])
         what = f"{target}: {d['decl']} {d['name']!r} is declared twice in {d['scope']} {d.get('scope_name', '')!r} of {d['file']}"
         bad.setdefault(sig, what)
     if target == "jsonschema":
@@ -730,6 +757,10 @@ def check_mm(ctx: Ctx, runner: Runner, mm: Dict[str, Any], stream: str, with_mod
             want = model[t]
             if t in ("jsonschema", "xsd") and want.startswith("err"):
                 want = "err"
+            if t in ("jsonschema", "xsd") and not want.startswith("crash") and got.startswith("crash") and unchecked[t] == got:
+                # the schema generators also convert the property names (an unchecked scope of the model) and only
+                # look at the collected errors afterwards: a naming function raising there is predicted by `unchecked`
+                want = got
             if got != want:
                 ctx.disagree(f"verify:{t}", mm, got, answers[i])
             ctx.traces_validated += 1
@@ -801,7 +832,7 @@ def run_conv(ctx: Ctx) -> None:
     n_corpus = len(idents)
     idents += enumerated_identifiers()
     n_enum = len(idents)
-    for _ in range(ctx.n(300, 6000)):
+    for _ in range(ctx.n(150, 6000)):
         s = random_identifier(ctx.rng, ctx.rng.random() < 0.4)
         idents.append(s if ctx.rng.random() < 0.5 else near_variant(ctx.rng, s))
     lines = []
@@ -879,7 +910,7 @@ def _run(ctx: Ctx, with_model: bool) -> None:
         run_conv(ctx)
         run_isident(ctx)
     k = 0
-    gen_budget = ctx.n(45, 900)
+    gen_budget = ctx.n(30, 350)
     for mm, stream in mm_stream(ctx):
         k += 1
         # every enumerated/corpus model is generated for all targets; random ones while the budget lasts
